@@ -26,6 +26,9 @@ def configs(tier):
                 pv = Fraction(1, k) if p == 'default' else Fraction(p)
                 M = pv.denominator * mult
                 out.append(dict(k=k, p=p, pv=pv, M=M, n=k + extra, st=(k % 2 == 0)))
+    # the reservoir in use while other library objects are constructed (none may disturb its draws)
+    out += [dict(c, neigh=True) for c in list(out) if c['k'] <= 2 and c['p'] in ('default', Fraction(1, 3)) and c['n'] == c['k'] + 3
+            and c['M'] == min(x['M'] for x in out if x['k'] == c['k'] and x['p'] == c['p'])]
     out.sort(key=lambda c: -(c['M'] * (1 + c['pv'] * (c['k'] - 1))) ** (c['n'] - c['k']))
     return out
 
@@ -165,8 +168,12 @@ def driver_for(cfg):
     def driver(run):
         s = make(cfg)
         hist = []
+        keep = None
         for t in range(1, n + 1):
             s.update({'id': t}, FALSY[t % len(FALSY)])       # targets incl. falsy ones: the law must not depend on y
+            if cfg.get('neigh') and t == k:
+                from checks.c08 import build_neighbours
+                keep = build_neighbours()
             ids = tuple(x['id'] for x in list(s.get_data()[0]))
             if cfg['pv'] == 1 and t not in ids:
                 raise Violation("C09/p1-newest-not-stored",
@@ -185,9 +192,10 @@ def run_config(cfg):
     states, edges = set(), set()
     tot = [Fraction(0)]
 
-    def on_leaf(run, hist):
-        w = run.weight
-        tot[0] += w
+    leaves = []
+    reseeds = {}
+
+    def tally(hist, w, retained, entered):
         prev = ()
         for i, ids in enumerate(hist):
             m = i + 1
@@ -201,38 +209,58 @@ def run_config(cfg):
             edges.add((prev, ids))
             prev = ids
 
-    st = choice.explore(driver_for(cfg), on_leaf=on_leaf, float_policy=lambda i: grid, weighted=True,
-                        check_ownership=False)
-    viol = list(st.violations)
-    desc = f"GeometricReservoirStorage(size={k}, constant_probability={cfg['p']!r})"
-    if not viol:
-        if tot[0] != 1:
-            raise choice.HarnessError(f"leaf weights sum to {tot[0]} for {cfg}")
+    def on_leaf(run, hist):
+        w = run.weight
+        tot[0] += w
+        if run.reseeded:
+            reseeds.update(run.reseeded)
+        leaves.append((run.world, (hist, w)))
+        tally(hist, w, retained, entered)
+
+    def judge(retained, entered, desc):
         for m in range(k, n + 1):
             for t in range(1, m + 1):
                 want = (1 - pv / k) ** (m - k) if t <= k else pv * (1 - pv / k) ** (m - t)
                 got = retained.get((m, t), Fraction(0))
                 if got != want:
-                    viol.append((f"C09/retention", f"{desc}: after {m} observations arrival {t} is "
-                                 f"retained with probability {got} (grid M={M}), the law gives {want}",
-                                 {}, ()))
-                    break
-            else:
-                continue
-            break
+                    return [(f"C09/retention", f"{desc}: after {m} observations arrival {t} is "
+                             f"retained with probability {got} (grid M={M}), the law gives {want}", {}, ())]
         for m in range(k + 1, n + 1):
             for slot in range(k):
                 got = entered.get((m, slot), Fraction(0))
                 if got != pv / k:
-                    viol.append(("C09/slot-law", f"{desc}: arrival {m} lands in slot {slot} with "
-                                 f"probability {got}, expected p/k = {pv / k}", {}, ()))
-                    break
-            else:
-                continue
-            break
+                    return [("C09/slot-law", f"{desc}: arrival {m} lands in slot {slot} with "
+                             f"probability {got}, expected p/k = {pv / k}", {}, ())]
+        return []
+
+    st = choice.explore(driver_for(cfg), on_leaf=on_leaf, float_policy=lambda i: grid, weighted=True,
+                        check_ownership=False)
+    viol = list(st.violations)
+    desc = f"GeometricReservoirStorage(size={k}, constant_probability={cfg['p']!r})" + \
+        (" while other library objects are constructed after observation k" if cfg.get('neigh') else "")
+    worlds = False
+    if not viol and any(w for w, _ in leaves):
+        # the library re-seeded a global generator: later draws are a fixed function of the seed; the law must hold for
+        # every fixed answer sequence (over the remaining, genuinely random draws)
+        worlds = True
+        why = '; '.join(sorted(reseeds.values()))
+        for world, members in list(choice.world_groups(leaves, cap=200).items()):
+            gt = sum(w for _, w in members)
+            r2, e2 = {}, {}
+            for hist, w in members:
+                tally(hist, w / gt, r2, e2)
+            viol = judge(r2, e2, f"{desc}; the library re-seeded a global generator ({why}), so the later draws are a fixed "
+                                 f"function of that seed - for the answer sequence {[c for _, _, c in world]}")
+            if viol:
+                viol = [(v[0] + '/reseeded',) + tuple(v[1:]) for v in viol]
+                break
+    elif not viol:
+        if tot[0] != 1:
+            raise choice.HarnessError(f"leaf weights sum to {tot[0]} for {cfg}")
+        viol = judge(retained, entered, desc)
     mode = 'exact'
     approx = None
-    if viol and all(v[0] in ('C09/retention', 'C09/slot-law') for v in viol):
+    if viol and not worlds and all(v[0] in ('C09/retention', 'C09/slot-law') for v in viol):
         v2, n_exec, tau, e_impl = fallback(cfg, desc)
         approx = {'tau': round(tau, 5), 'error': round(e_impl, 5), 'paths': n_exec}
         mode = 'approximate (draws are transformed continuously)'
